@@ -1,6 +1,6 @@
 (* C13 - model Hamiltonian generators. *)
-From Coq Require Import Arith List Bool.
-From OFV Require Import Model.Hubbard Thm.C13.Bonds Thm.C13.BondsF Thm.C13.BondsG.
+From Coq Require Import ZArith Arith List Bool.
+From OFV Require Import Model.Hubbard Thm.C13.Bonds Thm.C13.BondsF Thm.C13.BondsG Gen.HubbardNeighbors Thm.C13.GenTie.
 Import ListNotations.
 (* [B] every lattice x, y <= 12, both boundary conditions: the neighbour enumeration of hubbard.py
    (with its length-2 periodic de-duplication) is exactly the edge set of the grid / torus graph
@@ -20,3 +20,14 @@ Theorem C13_each_bond_once : forall x y per, 1 <= x -> 1 <= y ->
   NoDup (bonds x y per) /\ (forall a b, In (a, b) (bonds x y per) -> ~ In (b, a) (bonds x y per)).
 Proof. exact each_bond_once. Qed.
 Print Assumptions C13_each_bond_once.
+
+(* tie by translation: _right_neighbor / _bottom_neighbor regenerated from the current source on every
+   run (Python integers as Z) equal the model the theorems above are about, for ALL arguments *)
+Theorem C13_gen_right_neighbor_is_model : forall s x y per, 1 <= x ->
+  gen_right_neighbor (Z.of_nat s) (Z.of_nat x) (Z.of_nat y) per = option_map Z.of_nat (right_neighbor s x y per).
+Proof. exact gen_right_neighbor_is_model. Qed.
+Print Assumptions C13_gen_right_neighbor_is_model.
+Theorem C13_gen_bottom_neighbor_is_model : forall s x y per, 1 <= y ->
+  gen_bottom_neighbor (Z.of_nat s) (Z.of_nat x) (Z.of_nat y) per = option_map Z.of_nat (bottom_neighbor s x y per).
+Proof. exact gen_bottom_neighbor_is_model. Qed.
+Print Assumptions C13_gen_bottom_neighbor_is_model.
